@@ -77,33 +77,37 @@ def lookup (s : St) (k : Int) : Option Int :=
   | some (p + 1) => some (s.nd (p + 1)).val
   | _ => none
 
+/-- `if c != this.NIL { c.SetParent(p) }` -/
+def adopt (s : St) (c p : Nat) : St := if c ≠ 0 then s.setParent c p else s
+
+/-- the pointer that led to `x` (the root pointer, or a child field of `x`'s parent) now leads to `y`:
+`if x.Parent(this) == this.NIL { this.root = y } else if x == x.Parent(this).Left { x.Parent(this).Left = y } else { x.Parent(this).Right = y }` -/
+def relink (s : St) (x y : Nat) : St :=
+  if s.parentOf x = 0 then s.setRoot y
+  else if x = (s.nd (s.parentOf x)).left then s.setLeft (s.parentOf x) y
+  else s.setRight (s.parentOf x) y
+
 /-- `mapImp.leftRotate` -/
 def leftRotate (s : St) (x : Nat) : St :=
   if (s.nd x).right = 0 then s else
   let y := (s.nd x).right
-  let s := s.setRight x (s.nd y).left
-  let s := if (s.nd y).left ≠ 0 then s.setParent (s.nd y).left x else s
-  let s := s.setParent y (s.parentOf x)
-  let s :=
-    if s.parentOf x = 0 then s.setRoot y
-    else if x = (s.nd (s.parentOf x)).left then s.setLeft (s.parentOf x) y
-    else s.setRight (s.parentOf x) y
-  let s := s.setLeft y x
-  s.setParent x y
+  let s1 := s.setRight x (s.nd y).left
+  let s2 := adopt s1 (s1.nd y).left x
+  let s3 := s2.setParent y (s2.parentOf x)
+  let s4 := relink s3 x y
+  let s5 := s4.setLeft y x
+  s5.setParent x y
 
 /-- `mapImp.rightRotate` -/
 def rightRotate (s : St) (x : Nat) : St :=
   if (s.nd x).left = 0 then s else
   let y := (s.nd x).left
-  let s := s.setLeft x (s.nd y).right
-  let s := if (s.nd y).right ≠ 0 then s.setParent (s.nd y).right x else s
-  let s := s.setParent y (s.parentOf x)
-  let s :=
-    if s.parentOf x = 0 then s.setRoot y
-    else if x = (s.nd (s.parentOf x)).left then s.setLeft (s.parentOf x) y
-    else s.setRight (s.parentOf x) y
-  let s := s.setRight y x
-  s.setParent x y
+  let s1 := s.setLeft x (s.nd y).right
+  let s2 := adopt s1 (s1.nd y).right x
+  let s3 := s2.setParent y (s2.parentOf x)
+  let s4 := relink s3 x y
+  let s5 := s4.setRight y x
+  s5.setParent x y
 
 /-- `mapImp.insertFixup` -/
 def insertFixup : Nat → St → Nat → St
@@ -267,10 +271,7 @@ def treeDelete (fixed : Bool) (s : St) (z : Nat) : St × Nat :=
   | some y =>
     let x := if (s.nd y).left ≠ 0 then (s.nd y).left else (s.nd y).right
     let s := s.setParent x (s.parentOf y)
-    let s :=
-      if s.parentOf y = 0 then s.setRoot x
-      else if y = (s.nd (s.parentOf y)).left then s.setLeft (s.parentOf y) x
-      else s.setRight (s.parentOf y) x
+    let s := relink s y x
     -- pinned: `if y != z { z = y }` — no effect.  repaired: `z.Key = y.Key; z.Val = y.Val`
     let s := if fixed ∧ y ≠ z then s.upd z fun n => { n with key := (s.nd y).key, val := (s.nd y).val } else s
     let s := if (s.nd y).red = false then deleteFixup s.fuel s x else s
